@@ -25,7 +25,8 @@ EXPLANATION = (
     "and class-level state is constant (the C15 lemma, re-checked here). These are site obligations over the AST of "
     "every module, recomputed on every run. (2) Bounded: every specification of the family is compiled twice from "
     "fresh parses and twice from the same parsed objects in one process - the four texts must be identical - and "
-    "compiled in child interpreters under other PYTHONHASHSEED values - every text must pass C06's closedness analysis "
+    "compiled in child interpreters under other PYTHONHASHSEED values - every text must pass C06's closedness analysis and the rank-id protocol "
+    "of C07 over its tensor-shaping statements, and a specification that compiles here must compile there "
     "(texts may differ between seeds; that is what the property allows). Whether texts that differ compute identical "
     "tensors is execution semantics of the emitted program: not applicable.")
 TRUSTED = ["CPython: within one process, str hashes are fixed and set/dict iteration order is a function of hash values "
@@ -133,7 +134,34 @@ def _family(tier, seed):
             fam.append((expr + str(part), defaults_family.yaml_of(decl, expr, part, False)))
     hf = hoist_family.specs(tier, seed)
     fam += hf if tier == "thorough" else hf[::3]
+    fam += [(n_, y_) for n_, y_ in SEED_SENSITIVE]
     return fam
+
+
+def _mk(decl, expr, part, lo=None):
+    outn = expr.split("[", 1)[0].strip()
+    y = "einsum:\n  declaration:\n" + "".join("    %s: %s\n" % kv for kv in decl.items())
+    y += "  expressions:\n    - %s\nmapping:\n  partitioning:\n    %s:\n" % (expr, outn) + "".join("      %s\n" % ln for ln in part)
+    if lo:
+        y += "  loop-order:\n    %s: [%s]\n" % (outn, ", ".join(lo))
+    return y
+
+
+# specifications in which SEVERAL partitionings are pending at once on one tensor (the order in which a set of
+# partitionings is iterated then matters if the code is wrong): two flattens of one tensor, a flatten next to a split whose
+# bottom level is flattened again, two output ranks each split twice by occupancy
+SEED_SENSITIVE = [
+    ("two flattens of one tensor, not adjacent",
+     _mk({"A": "[M, N, K, J]", "Z": "[M, N, K, J]"}, "Z[m, n, k, j] = A[m, n, k, j]", ["(M, K): [flatten()]", "(N, J): [flatten()]"])),
+    ("flatten next to a split whose bottom level is flattened again",
+     _mk({"A": "[M, K, N, J]", "Z": "[M, K, N, J]"}, "Z[m, k, n, j] = A[m, k, n, j]",
+         ["N: [uniform_shape(4)]", "(M, K): [flatten()]", "(N0, J): [flatten()]"])),
+    ("two output ranks each split twice by occupancy",
+     _mk({"A": "[M, N]", "Z": "[M, N]"}, "Z[m, n] = A[m, n]",
+         ["M: [uniform_occupancy(A.6), uniform_occupancy(A.3)]", "N: [uniform_occupancy(A.6), uniform_occupancy(A.3)]"])),
+    ("two flattens of an operand and an unflattened output",
+     _mk({"A": "[M, N, K, J]", "Z": "[M]"}, "Z[m] = A[m, n, k, j]", ["(N, K): [flatten()]"])),
+]
 
 
 def _compile(y, objs=None):
@@ -147,7 +175,9 @@ def _compile(y, objs=None):
                 objs += [a, b, f]
         except Exception:      # noqa
             pass
-    return str(HiFiber(*objs)), objs
+    hf = HiFiber(*objs)
+    _compile.last = hf
+    return str(hf), objs
 
 
 def child(tier, seed):
@@ -156,9 +186,14 @@ def child(tier, seed):
     res = {}
     for name, y in _family(tier, seed):
         try:
-            text, _ = _compile(y)
+            text, objs = _compile(y)
             user, _o = C06.user_names(y)
-            res[name] = {"sha": __import__("hashlib").sha256(text.encode()).hexdigest()[:16], "problems": C06.closed(text, user)[:2]}
+            probs = C06.closed(text, user)[:2]
+            # the tensor-shaping statements of this text are consistent (rank-id protocol of C07): a text that is closed
+            # but labels, merges or swizzles the wrong ranks under this seed is not "benign"
+            from props import C07
+            p7, _obj, _ids = C07.check_tree(_compile.last.hifiber, dict(objs[0].get_declaration()))
+            res[name] = {"sha": __import__("hashlib").sha256(text.encode()).hexdigest()[:16], "problems": probs + p7[:2]}
         except Exception as e:      # noqa
             res[name] = {"sha": None, "error": type(e).__name__}
     print("@@" + json.dumps(res))
@@ -191,9 +226,10 @@ def bounded(uni, tier, seed):
                           "witness": {"spec": name, "yaml": y[:1500]}})
         if len(samples) < 2:
             samples.append({"spec": name[:80], "text_sha": here[name]})
-    seeds = ["1", "7"] if tier != "thorough" else ["1", "7", "42", "1234", "99999"]
+    seeds = ["1", "2", "5", "8"] if tier != "thorough" else ["0", "1", "2", "3", "4", "5", "6", "7", "8", "9", "42", "1234"]
     root = os.path.dirname(os.path.dirname(os.path.abspath(__file__)))
     differing = 0
+    outcomes = {name: {"this process": ("ok" if sha is not None else "raises")} for name, sha in here.items()}
     for hs in seeds:
         env = dict(os.environ, PYTHONHASHSEED=hs, PYTHONPATH=root)
         r = subprocess.run([sys.executable, "-c", "from props import C08; C08.child(%r, %d)" % (tier, seed)],
@@ -206,11 +242,8 @@ def bounded(uni, tier, seed):
         res = json.loads(line[0][2:])
         n_diff = 0
         for name, rec in res.items():
+            outcomes.setdefault(name, {})[hs] = rec.get("error") if rec.get("sha") is None else "ok"
             if rec.get("sha") is None:
-                if here.get(name) is not None:
-                    fails.append({"name": "bounded/closed-under-other-seeds",
-                                  "detail": "%s compiles here but raises %s under PYTHONHASHSEED=%s" % (name[:100], rec.get("error"), hs),
-                                  "witness": {"spec": name, "seed": hs}})
                 continue
             ev += 1
             if rec["sha"] != here.get(name):
@@ -221,10 +254,17 @@ def bounded(uni, tier, seed):
                               "witness": {"spec": name, "seed": hs, "problems": rec["problems"]}})
         differing += n_diff
         samples.append({"PYTHONHASHSEED": hs, "programs": len(res), "texts_differing_from_this_process": n_diff})
+    # acceptance must not depend on the seed: a specification compiles under every seed or under none
+    for name, oc in outcomes.items():
+        if len({("ok" if v == "ok" else "raises") for v in oc.values()}) > 1:
+            fails.append({"name": "bounded/closed-under-other-seeds",
+                          "detail": "%s: whether it compiles depends on the hash seed: %s" % (name[:100], oc),
+                          "witness": {"spec": name, "outcomes": oc}})
     return {"evaluations": ev, "distinct_nontrivial": len(distinct), "failures": fails[:8], "samples": samples,
             "rule": "integration specs + C19 family + placement family: compiled twice from fresh parses and once more from "
                     "the same parsed objects in one process (identical text required); compiled in child interpreters under "
-                    "PYTHONHASHSEED in %s (every text must pass the definite-assignment analysis; %d texts differed from "
+                    "PYTHONHASHSEED in %s (every text must pass the definite-assignment analysis and the rank-id protocol of "
+                    "C07, and compile wherever it compiles here; %d texts differed from "
                     "this process's, which the property allows)" % (seeds, differing)}
 
 
